@@ -140,6 +140,8 @@ def run_spec(spec, points, tier, visit, quick_slice=0, honesty=False, want_steps
                     continue
                 for order in orders:
                     cfg = (method, n, order)
+                    if gen[0] == 'rows' and gen[1]['rows'] <= 0 and cm.sm.rule_length(method, n, order) < 2:
+                        continue      # "one step too few" needs a rule of at least two steps
                     for comb in combs:
                         t = terms(cfg, gen, comb)
                         if t is None:
@@ -193,6 +195,9 @@ def work(chunk, points=None, tier='quick', quick_slice=0):
             cell = '%s/n=%d/order=%d' % (method, n, order)
             if res['status'] != 'ok':
                 acc.case(case, nontrivial=False, outcome=res['status'])
+                if gen[0] == 'rows' and gen[1]['rows'] <= 0 and res['status'] == 'raised-ValueError':
+                    acc.count('too-few-steps:refused-with-ValueError')        # not accepted: nothing to judge
+                    return
                 acc.violation('C01:%s:%s:n=%d' % (method, res['status'], n), jc, res['exc'], rank)
                 return
             v = _elem(res['val'], form)
